@@ -2,7 +2,7 @@
    write cycles, any number (< 2^24) of threads with arbitrary programs of
    lock/unlock cycles, any schedule. *)
 From PV Require Import Base.Tac Base.ListX RWLock.RWLockDefs RWLock.RWLockBase RWLock.RWLockInv
-  RWLock.RWLockSafety RWLock.RWLockProgress RWLock.RWLockFair.
+  RWLock.RWLockSafety RWLock.RWLockProgress RWLock.RWLockFair RWLock.RWLockWait.
 Local Open Scope Z_scope.
 
 Definition reach (a b : Z) (progs : list (list kind)) (sched : list nat) : cfg :=
@@ -89,3 +89,31 @@ Theorem writers_fifo a b progs sched s t tk : Z.of_nat (length progs) < NB ->
   wents (log (run c s)) <= wents (log c) + ahead c tk /\
   ahead c tk <= (tk - wout c) mod M32 < cnt is_A (thrs c).
 Proof. intros H c. apply writer_fifo, reach_inv, H. Qed.
+
+(* bounded waiting: a writer that holds a ticket with k tickets before its own enters the
+   critical section within (3N+8)(k+1) rounds (N threads), whatever programs the others run *)
+Theorem writer_bounded_wait a b progs sched rounds t : Z.of_nat (length progs) < NB ->
+  let c := reach a b progs sched in
+  let N := Z.of_nat (length progs) in
+  waitingW t c ->
+  (forall s, In s rounds -> covers (length progs) s) ->
+  (3 * N + 8) * (toff c t + 1) <= Z.of_nat (length rounds) ->
+  ents t (log c) < ents t (log (run c (concat rounds))).
+Proof.
+  intros H c N Hw Hcov Hr. apply writer_wait_rounds.
+  - apply reach_inv, H.
+  - exact Hw.
+  - unfold c. rewrite reach_len. exact Hcov.
+  - pose proof (rho_bound c t) as Hb.
+    assert (E : NN c = N) by (unfold NN, c, N; rewrite reach_len; reflexivity).
+    rewrite E in Hb. lia.
+Qed.
+
+Theorem reader_phase_bound_refuted_reach :
+  exists progs sched s t tk,
+    Z.of_nat (length progs) < NB /\
+    let c := reach 0 0 progs sched in
+    ww_waits t tk c /\ stays (ww_waits t tk) c s /\
+    (tk - wout c) mod M32 = 1 /\ cnt is_rfl (thrs c) = 0 /\
+    rents (log (run c s)) > rents (log c) + ((tk - wout c) mod M32 + 1) * Z.of_nat (length progs).
+Proof. exact reader_phase_bound_refuted. Qed.
